@@ -190,7 +190,9 @@ def malformed_matrix(backend: str, s) -> List[Tuple[str, str, bool]]:
             out.append((f"drop_optional_{k}", q({x: v for x, v in base.items() if x != k}), False))
             continue
         out.append((f"drop_{k}", q({x: v for x, v in base.items() if x != k}), True))
-    for extra in ("bogus", "element_types", "libraries", "link_library", "include_file", "backend"):
+    # keys that are legal for ANOTHER backend's declaration are still wrong here
+    other_keys = ["element_pointer"] if backend == "atlas" else ["link_libraries"]
+    for extra in ["bogus", "element_types", "libraries", "link_library", "include_file", "backend"] + other_keys:
         out.append((f"extra_{extra}", q(dict(base, **{extra: "x"})), True))
     if backend == "atlas":
         out.append(("element_with_singleton", q(dict(base, contains_collection=False)), True))
@@ -243,6 +245,25 @@ def run(ctx: Ctx) -> int:
             if c is not None:
                 cases.append(c)
                 k += 1
+    # the same executor first handles a query whose metadata REPLACES / declares collections, then a plain query: the plain
+    # query must still fetch the built-in collections (declarations live for one query only)
+    for b in sch.BACKENDS:
+        s = schemas[b]
+        fixed = sch.clone(sch.fixed(b))
+        fixed["collections"] = dict(fixed["collections"])
+        repl = [n for n, c in s["collections"].items() if c.get("replaces")][0]
+        pre = diff.attach_metadata(f"ds.Select(lambda e: (e.{repl}('X').Count(), e.MyThings('Y').Count()))", [declaration(b, repl, s["collections"][repl]), declaration(b, "MyThings", s["collections"]["MyThings"])])
+        mem = num_member(fixed, fixed["collections"][repl])[0]
+        for k in range(ctx.pick(2, 10)):
+            q = f"ds.Select(lambda e: (e.{repl}('Z{k}').Select(lambda x: x.{mem}()), e.{fixed['main']['coll']}('A').Count()))"
+            RR = ctx.rng("c06seq", b, k)
+            evs = []
+            for _ in range(3):
+                evs.append({"banks": [{"coll": repl, "bank": f"Z{k}", "objs": [evgen.gen_obj(fixed, fixed["collections"][repl]["element"], RR, 1) for _ in range(RR.choice([0, 1, 3]))]},
+                                      {"coll": fixed["main"]["coll"], "bank": "A", "objs": [evgen.gen_obj(fixed, fixed["collections"][fixed["main"]["coll"]]["element"], RR, 1) for _ in range(2)]}]})
+            c = diff.Case(b, q, evs, diff.members_used(fixed, q), schema=fixed, tag={"form": "after_replacing_query_on_same_executor", "used": [(repl, f"Z{k}"), (fixed["main"]["coll"], "A")], "absent": None})
+            c.pre_queries = [pre]  # type: ignore
+            cases.append(c)
     results: List[Tuple[diff.Case, Dict[str, Any]]] = []
     diff.differential(ctx, eng, cases, lambda c, r: results.append((c, r)))
     for c, r in results:
